@@ -30,6 +30,7 @@ fn main() {
         "once-replay" => once::main(&rest),
         "watch-replay" => watch::replay(&rest),
         "watch-real" => watch::real(&rest),
+        "watchseq-replay" => watch::seq_replay(&rest),
         "fs-replay" => fsreplay::main(&rest),
         "c08-stress" => stress::c08(&rest),
         "cache-replay" => replay::main(&rest),
